@@ -52,6 +52,47 @@ def classify_family(fam, lines, tier, jobs):
                 harness_errs=errs, crashes=crashes)
 
 
+def spec_fails(fam, line):
+    """re-run one scenario through harness and spec driver; returns (fails, obs, spec_out)"""
+    impl, _ = C.run_lines_parallel(C.HARNESS_BIN, [fam.harness_cmd], [line], jobs=1, timeout=fam.timeout, env=fam.env())
+    if line not in impl:
+        return True, "(no output)", None
+    obs = impl[line]
+    si = fam.spec_input(line, obs)
+    spec, _ = C.run_lines_parallel(C.SPECDRIVER, [], [si], jobs=1, timeout=fam.timeout)
+    so = spec.get(si)
+    return (so is None or not fam.spec_ok(so, obs)), obs, so
+
+
+def shrink(fam, line, key, budget=60):
+    """greedy delta-debugging over the ` | `-separated steps of a scenario: drop steps while the same failure remains"""
+    parts = line.split(" | ")
+    if len(parts) < 3:
+        return line
+    head, steps = parts[0], parts[1:]
+    # families whose first part is itself a step (e.g. `srv m ...`) keep the family token
+    fam_tok = head.split(" ", 1)[0]
+    first_is_step = fam_tok == fam.name and len(head.split()) > 1 and "=" not in head.split()[1]
+    if first_is_step:
+        steps = [head.split(" ", 1)[1]] + steps
+        head = fam_tok
+    tried = 0
+    i = 0
+    while i < len(steps) and tried < budget and len(steps) > 1:
+        cand = steps[:i] + steps[i + 1:]
+        cl = (head + " " + " | ".join(cand)) if first_is_step else " | ".join([head] + cand)
+        tried += 1
+        try:
+            bad, obs, so = spec_fails(fam, cl)
+        except Exception:
+            bad = False
+        if bad and fam.finding_key(cl, obs, so) == key:
+            steps = cand
+        else:
+            i += 1
+    return (head + " " + " | ".join(steps)) if first_is_step else " | ".join([head] + steps)
+
+
 def main():
     ap = argparse.ArgumentParser()
     ap.add_argument("prop")
@@ -153,7 +194,7 @@ def main():
             if fk in known_open:
                 known_hits.setdefault(fk, []).append(l)
                 continue
-            violations.append(("impl-vs-spec", fam.describe_spec_failure(l, obs, so), [l], so, obs))
+            violations.append(("impl-vs-spec", fam.describe_spec_failure(l, obs, so), [l], so, obs, fam, fk))
         for (l, obs, mo) in r["model_diff"]:
             model_diffs_all.append((fam, l, obs, mo))
 
@@ -168,11 +209,23 @@ def main():
     if violations:
         # report distinct failure descriptions, shrunk to the first scenario of each kind
         seen_kinds = set()
-        for (stream, what, scen, exp, obs) in violations:
-            kind = what.split(":")[0]
+        for v in violations:
+            (stream, what, scen, exp, obs) = v[:5]
+            kind = v[6] if len(v) > 6 else what.split(":")[0]
             if kind in seen_kinds:
                 continue
             seen_kinds.add(kind)
+            if len(v) > 6 and scen and not args.replay:
+                # shrink to a minimal step sequence with the same failure
+                try:
+                    small = shrink(v[5], scen[0], v[6])
+                    if small != scen[0]:
+                        bad, o2, so2 = spec_fails(v[5], small)
+                        if bad:
+                            scen, obs, exp = [small], o2, so2
+                            what = v[5].describe_spec_failure(small, o2, so2)
+                except Exception as e:  # shrinking is best effort
+                    notes.append(f"shrink failed: {e}")
             path = C.write_replay(prop, seed, stream, what, scen, exp, obs)
             out_lines.append(f"VIOLATION property={prop} replay={path}")
             exit_code = 1
